@@ -339,7 +339,8 @@ class SymBuf:
             lo, ln = clamp_slice(i, self.n)
             return SymSeq(self.arr, lo, ln, self.n, live=None)  # a copy (frozen snapshot)
         t = self._index(i, "load")
-        return SymInt(zx(self.arr.select(t)))
+        b = self.arr.select(t)
+        return b.as_long() if z3.is_bv_value(b) else SymInt(zx(b))
 
     def __setitem__(self, i, v):
         if isinstance(i, slice):
@@ -664,6 +665,8 @@ def isinstance_shim(o, cls):
         return isinstance(o, (memoryview, SymSeq))
     if cls is str_shim:
         return isinstance(o, str)
+    if cls is type_shim:
+        return isinstance(o, type)
     return builtins.isinstance(o, cls)
 
 
@@ -719,6 +722,18 @@ def str_shim(*a, **kw):
     return builtins.str(*a, **kw)
 
 
+def type_shim(*a):
+    if len(a) == 1:
+        o = a[0]
+        if isinstance(o, SymInt):
+            return builtins.int
+        if isinstance(o, SymBool):
+            return builtins.bool
+        if isinstance(o, SymFloat):
+            return builtins.float
+    return builtins.type(*a)
+
+
 def complex_shim(*a):
     if any(isinstance(x, SymFloat) for x in a):
         return SymComplex(a[0], a[1])
@@ -734,7 +749,7 @@ def float_shim(x=0.0):
 SHIMS = {
     "int": IntShim, "len": len_shim, "bytearray": SymBuf, "memoryview": memoryview_shim,
     "isinstance": isinstance_shim, "struct": _StructModuleShim(), "range": range_shim, "str": str_shim,
-    "complex": complex_shim, "float": float_shim, "bool": BoolShim,
+    "complex": complex_shim, "float": float_shim, "bool": BoolShim, "type": type_shim,
 }
 
 
